@@ -16,6 +16,7 @@
 #include <openssl/err.h>
 #include <openssl/objects.h>
 #include <stdarg.h>
+#include "c03_keys.h"
 
 static int g_dump;                       /* replay: verbose trace to stderr */
 #define DUMPF(...) do { if (g_dump) fprintf(stderr, __VA_ARGS__); } while (0)
@@ -34,8 +35,9 @@ static void die(const char *fmt, ...)
 }
 
 /* ------------------------------------------------------------------ slices */
-enum { SL_EC = 0, SL_ECN, SL_RSA, SL_ED, SL_MIX, SL_N };
-static const char *slice_name[SL_N] = { "ec", "ec-nokeyid", "rsa", "ed25519", "mixed" };
+/* SL_RSA is the bulk slice (MatrixSSL verifies RSA-2048 in 0.13 ms, P-256 in 2 ms) */
+enum { SL_RSA = 0, SL_NOKID, SL_EC, SL_ED, SL_MIX, SL_N };
+static const char *slice_name[SL_N] = { "rsa", "rsa-nokeyid", "p256", "ed25519", "mixed" };
 
 #define MAXINT 4                         /* at most 4 intermediates (thorough) */
 /* key slots */
@@ -44,7 +46,7 @@ static EVP_PKEY *g_key[SL_N][KS_N];
 
 /* ------------------------------------------------------------------- kinds */
 enum {
-    K_GOOD = 0, K_GOOD_UNKEXT, K_GOOD_EKU,
+    K_GOOD = 0, K_GOOD_UNKEXT, K_GOOD_EKU, K_GOOD_PSS,
     K_SIG_BITFLIP, K_SIG_WRONGKEY,
     K_SC_ANCHOR_KEEPDN, K_SC_ANCHOR, K_SC_PARENT_KEEPDN, K_SC_PARENT, K_SC_SIBLING,
     K_ALG_MISMATCH, K_ALG_WRONGHASH, K_SHA1, K_MD5,
@@ -59,6 +61,7 @@ static const struct { const char *name; int where; } kind_tab[K_N] = {
     [K_GOOD]             = { "good", F_CA | F_LEAF },
     [K_GOOD_UNKEXT]      = { "unknown-noncritical-ext", F_CA | F_LEAF },
     [K_GOOD_EKU]         = { "eku-serverauth", F_LEAF },
+    [K_GOOD_PSS]         = { "rsa-pss-sha256-signature", F_CA | F_LEAF },
     [K_SIG_BITFLIP]      = { "sig-bit-flipped", F_CA | F_LEAF },
     [K_SIG_WRONGKEY]     = { "signed-by-wrong-key", F_CA | F_LEAF },
     [K_SC_ANCHOR_KEEPDN] = { "sig-copied-from-anchor-dn-kept", F_CA | F_LEAF },
@@ -101,27 +104,23 @@ static int kind_by_name(const char *s)
     return -1;
 }
 
-/* which kinds exist in which slice (the full list only in the P-256 bulk slice) */
+/* which kinds exist in which slice (the full list only in the RSA-2048 bulk slice) */
 static int kind_in_slice(int slice, int kind)
 {
     switch (kind)
     {
-    case K_MD5: case K_WEAKKEY:
+    case K_MD5: case K_WEAKKEY: case K_AKI_BAD: case K_AKI_ABSENT: case K_GOOD_PSS:
         return slice == SL_RSA;
-    case K_SHA1:
+    case K_SHA1: case K_ALG_WRONGHASH:
         return slice == SL_EC || slice == SL_RSA;
-    case K_ALG_WRONGHASH:
-        return slice == SL_EC || slice == SL_RSA;
-    case K_AKI_BAD: case K_AKI_ABSENT:
-        return slice == SL_EC;
     default:
         break;
     }
-    if (slice == SL_EC)
+    if (slice == SL_RSA)
     {
         return 1;
     }
-    if (slice == SL_ECN)
+    if (slice == SL_NOKID)
     {
         switch (kind)
         {
@@ -131,10 +130,10 @@ static int kind_in_slice(int slice, int kind)
             return 0;
         }
     }
-    switch (kind)   /* rsa, ed25519, mixed */
+    switch (kind)   /* p256, ed25519, mixed */
     {
     case K_GOOD: case K_SIG_BITFLIP: case K_SIG_WRONGKEY: case K_SC_ANCHOR: case K_SC_PARENT: case K_SC_SIBLING:
-    case K_ALG_MISMATCH: case K_CA_FALSE: case K_PL0: case K_KU_NOCERTSIGN: case K_EXPIRED: case K_NOTYET:
+    case K_ALG_MISMATCH: case K_CA_FALSE: case K_PL0: case K_PL1: case K_KU_NOCERTSIGN: case K_EXPIRED: case K_NOTYET:
     case K_SELFSIGNED:
         return 1;
     default:
@@ -143,7 +142,7 @@ static int kind_in_slice(int slice, int kind)
 }
 static int slice_max_int(int slice)      /* most intermediates the slice has keys for */
 {
-    return (slice == SL_EC) ? MAXINT : 2;
+    return (slice == SL_RSA) ? MAXINT : 2;
 }
 
 /* -------------------------------------------------------------------- keys */
@@ -189,12 +188,14 @@ static EVP_PKEY *mk_ed(unsigned seed)
     }
     return pk;
 }
-static EVP_PKEY *mk_rsa(int bits)
+static EVP_PKEY *mk_rsa(int slot)
 {
-    EVP_PKEY *pk = EVP_RSA_gen((unsigned) bits);
+    BIO *b = BIO_new_mem_buf(c03_rsa_pem[slot], -1);
+    EVP_PKEY *pk = PEM_read_bio_PrivateKey(b, NULL, NULL, NULL);
+    BIO_free(b);
     if (!pk)
     {
-        die("rsa key %d", bits);
+        die("rsa key slot %d", slot);
     }
     return pk;
 }
@@ -208,27 +209,18 @@ static void slice_keys(int sl)
     }
     switch (sl)
     {
+    case SL_RSA:
+    case SL_NOKID:
+        for (i = 0; i < KS_N; i++) g_key[sl][i] = mk_rsa(i);
+        break;
     case SL_EC:
         for (i = 0; i < KS_WEAK; i++) g_key[sl][i] = mk_ec(NID_X9_62_prime256v1, 1 + (unsigned) i);
-        break;
-    case SL_ECN:
-        for (i = 0; i < KS_WEAK; i++) g_key[sl][i] = mk_ec(NID_X9_62_prime256v1, 21 + (unsigned) i);
         break;
     case SL_ED:
         for (i = 0; i < KS_WEAK; i++) g_key[sl][i] = mk_ed(1 + (unsigned) i);
         break;
-    case SL_RSA:
-        g_key[sl][KS_ROOT] = mk_rsa(2048);
-        g_key[sl][KS_L1] = mk_rsa(2048);
-        g_key[sl][KS_L2] = mk_rsa(2048);
-        g_key[sl][KS_LEAF] = mk_rsa(2048);
-        g_key[sl][KS_ATT] = mk_rsa(2048);
-        EVP_PKEY_up_ref(g_key[sl][KS_ATT]); g_key[sl][KS_ROOT2] = g_key[sl][KS_ATT];
-        EVP_PKEY_up_ref(g_key[sl][KS_ATT]); g_key[sl][KS_SIB] = g_key[sl][KS_ATT];
-        g_key[sl][KS_WEAK] = mk_rsa(512);
-        break;
     case SL_MIX:
-        g_key[sl][KS_ROOT] = mk_rsa(2048);
+        g_key[sl][KS_ROOT] = mk_rsa(KS_ROOT);
         g_key[sl][KS_L1] = mk_ec(NID_secp384r1, 41);
         g_key[sl][KS_L2] = mk_ed(41);
         g_key[sl][KS_LEAF] = mk_ec(NID_X9_62_prime256v1, 42);
@@ -264,6 +256,7 @@ typedef struct {
     psX509Cert_t *pc[2];                 /* parsed by MatrixSSL: [0] chain copy, [1] anchor copy */
     int pc_rc[2], pc_done[2];
     uint32 pc_flags[2];
+    unsigned char *pc_sig[2];            /* signature bytes right after parsing (RSA verification decrypts them in place) */
 } ucert_t;
 
 #define MAXU 1400
@@ -505,7 +498,20 @@ static X509 *build_cert(const cspec_t *c, unsigned char **der_out, int *derlen_o
     if (md && kind == K_SHA1) md = EVP_sha1();
     if (md && kind == K_MD5) md = EVP_md5();
     if (md && kind == K_ALG_WRONGHASH) md = EVP_sha384();
-    if (!X509_sign(x, signer, md))
+    if (kind == K_GOOD_PSS)
+    {
+        EVP_MD_CTX *mc = EVP_MD_CTX_new();
+        EVP_PKEY_CTX *pc = NULL;
+        if (!EVP_DigestSignInit(mc, &pc, EVP_sha256(), NULL, signer) ||
+            EVP_PKEY_CTX_set_rsa_padding(pc, RSA_PKCS1_PSS_PADDING) <= 0 ||
+            EVP_PKEY_CTX_set_rsa_pss_saltlen(pc, 32) <= 0 ||
+            !X509_sign_ctx(x, mc))
+        {
+            die("RSA-PSS X509_sign_ctx");
+        }
+        EVP_MD_CTX_free(mc);
+    }
+    else if (!X509_sign(x, signer, md))
     {
         die("X509_sign kind %s", kind_tab[kind].name);
     }
@@ -601,7 +607,7 @@ static int add_u(int slice, int level, int parent, int kind, X509 *x, unsigned c
 static int g_built[SL_N];
 static void build_slice(int sl)
 {
-    int l, k, r, maxint = slice_max_int(sl), nokid = (sl == SL_ECN);
+    int l, k, r, maxint = slice_max_int(sl), nokid = (sl == SL_NOKID);
     cspec_t c;
     unsigned char *der;
     int derlen;
@@ -740,6 +746,8 @@ static psX509Cert_t *u_parsed(int id, int which)
         else
         {
             u->pc_flags[which] = u->pc[which]->authFailFlags;
+            u->pc_sig[which] = h_malloc(u->pc[which]->signatureLen ? u->pc[which]->signatureLen : 1);
+            memcpy(u->pc_sig[which], u->pc[which]->signature, u->pc[which]->signatureLen);
         }
     }
     if (u->pc[which])
@@ -747,6 +755,7 @@ static psX509Cert_t *u_parsed(int id, int which)
         u->pc[which]->next = NULL;
         u->pc[which]->authStatus = 0;
         u->pc[which]->authFailFlags = u->pc_flags[which];
+        memcpy(u->pc[which]->signature, u->pc_sig[which], u->pc[which]->signatureLen);
 # ifdef USE_CRL
         u->pc[which]->revokedStatus = 0;
 # endif
